@@ -59,7 +59,14 @@ InFlight(c, hbh, e2e) == \E j \in 1..Len(S.held) : S.held[j].c = c /\ ~S.held[j]
 Msgs(c) ==
   LET sp == Speakers(c) IN
   (IF "cer" \in Alpha /\ S.conn[c].dir = "in" /\ S.conn[c].st = "CONNECTED" /\ S.conn[c].nodeName = ""   \* at most one CER per connection
-     THEN {Mk("CE", 257, TRUE, 1, 1, 0, h, "", 0, FALSE, TRUE, FALSE, au, <<>>, FALSE) : h \in Hosts, au \in {<<RegApp>>, <<77>>}} ELSE {}) \cup
+     THEN {Mk("CE", 257, TRUE, 1, 1, 0, h, "", 0, FALSE, TRUE, FALSE, aa[1], aa[2], FALSE)
+             \* the registered id as authentication id, a foreign id, the registered id offered for accounting only
+             : h \in Hosts, aa \in {<<<<RegApp>>, <<>>>>, <<<<77>>, <<>>>>, <<<<>>, <<RegApp>>>>}} ELSE {}) \cup
+  (IF "cerout" \in Alpha /\ S.conn[c].dir = "out" /\ S.conn[c].st = "CONNECTED"        \* a CER where the node expects the CEA
+     THEN {Mk("CE", 257, TRUE, 1, 1, 0, S.conn[c].nodeName, "", 0, FALSE, TRUE, FALSE, <<RegApp>>, <<>>, FALSE)} ELSE {}) \cup
+  (IF "dwr0" \in Alpha THEN {Mk("DW", 280, TRUE, 0, 0, 0, h, "", 0, FALSE, TRUE, FALSE, <<>>, <<>>, FALSE) : h \in sp} ELSE {}) \cup
+  (IF "req0" \in Alpha /\ ~InFlight(c, 0, 0)
+     THEN {Mk("APP", 272, TRUE, 0, 0, RegApp, h, NodeCfg.realm, 0, FALSE, TRUE, FALSE, <<>>, <<>>, FALSE) : h \in sp} ELSE {}) \cup
   (IF "ceaok" \in Alpha /\ S.conn[c].dir = "out" /\ S.conn[c].st = "CONNECTED"
      THEN {Mk("CE", 257, FALSE, S.conn[c].hbh, S.e2e, 0, S.conn[c].nodeName, "", 2001, FALSE, TRUE, FALSE, <<RegApp>>, <<>>, FALSE)} ELSE {}) \cup
   (IF "cerok" \in Alpha /\ S.conn[c].dir = "in" /\ S.conn[c].st = "CONNECTED" /\ S.conn[c].nodeName = ""
@@ -102,6 +109,12 @@ Acts ==
      THEN UNION {{[a |-> "feed", c |-> c, ms |-> <<m1, m2>>] : m1 \in {x \in Msgs(c) : x.cmd = "DW" /\ x.req}, m2 \in {x \in Msgs(c) : x.cmd = "DP" /\ ~x.req}}
                  : c \in {x \in ConnIds : Whole(x) /\ S.conn[x].st = "DISCONNECTING"}} ELSE {}) \cup
   (IF Faults THEN UNION {{[a |-> "peer_close", c |-> c], [a |-> "peer_reset", c |-> c]} : c \in {x \in ConnIds : Usable(x)}} ELSE {}) \cup
+  (IF "stall" \in Alpha THEN {[a |-> "stall", c |-> c] : c \in {x \in ConnIds : Usable(x) /\ ~S.conn[x].stalled}} ELSE {}) \cup
+  \* two connections hit at the same instant: both deliver undecodable bytes / both are closed by their peers
+  (IF "garbage2" \in Alpha THEN {[a |-> "multi", acts |-> <<[a |-> "garbage", c |-> p[1]], [a |-> "garbage", c |-> p[2]]>>]
+                                   : p \in {q \in ConnIds \X ConnIds : q[1] < q[2] /\ Whole(q[1]) /\ Whole(q[2])}} ELSE {}) \cup
+  (IF "close2" \in Alpha THEN {[a |-> "multi", acts |-> <<[a |-> "peer_close", c |-> p[1]], [a |-> "peer_close", c |-> p[2]]>>]
+                                 : p \in {q \in ConnIds \X ConnIds : q[1] < q[2] /\ Usable(q[1]) /\ Usable(q[2])}} ELSE {}) \cup
   (IF "senderr" \in Alpha THEN {[a |-> "send_error", c |-> c] : c \in {x \in ConnIds : Usable(x) /\ ~S.conn[x].sendErr}} ELSE {}) \cup
   (IF "garbage" \in Alpha THEN {[a |-> "garbage", c |-> c] : c \in {x \in ConnIds : Whole(x)}} ELSE {}) \cup
   \* a watchdog request delivered in two network reads (first half, then the rest)
